@@ -191,10 +191,27 @@ func checkExport(c *hx.Ctx, kase caseID, what string, cfg rag.ExportConfig, chun
 		if emit {
 			c.Op("c14.csvcols "+g+" "+cs, wireRow(rag.VerifCollectCSVColumns(cfg, chunks)))
 			c.Op("c14.rows "+g+" "+cs, implRows)
+			c.Op("c14.spec "+g+" "+cs, implRows) // the same rows from the specification over the chunks' own fields
 			c.Op("c14.export "+g+" "+cs, implText)
 		}
 	}
+	if emit && (cfg.Format == rag.ExportFormatJSON || cfg.Format == rag.ExportFormatJSONL) {
+		// the text itself (JSON through the assumed encoding/json writer of the model; the CSV/TSV
+		// text is op c14.export above, and c14.tostring under drawn configurations in jsontext.go)
+		c.Op("c14.tostring "+g+" "+cs, okHex(out, err))
+		if err == nil && len(caseTexts)+len(caseLines) < 6 {
+			switch cfg.Format {
+			case rag.ExportFormatJSON:
+				caseTexts = append(caseTexts, []byte(out))
+			case rag.ExportFormatJSONL:
+				caseLines = append(caseLines, []byte(out))
+			}
+		}
+	}
 }
+
+// JSON texts of the current case, for the reader ops (see jsontext.go)
+var caseTexts, caseLines [][]byte
 
 func export(cfg rag.ExportConfig, chunks []*rag.Chunk) (out string, err error) {
 	if p := hx.Safe(func() { out, err = rag.NewExporterWithConfig(cfg).ExportToString(chunks) }); p != "" {
@@ -1010,6 +1027,7 @@ func RunCase(c *hx.Ctx, idx int) {
 	kase := caseID{Seed: c.Seed, Index: idx}
 	chunks := genChunks(r)
 	cc := rag.NewChunkCollection(chunks)
+	caseTexts, caseLines = nil, nil
 
 	// the four collection-level shorthands, with the configuration each documents
 	type short struct {
@@ -1027,6 +1045,7 @@ func RunCase(c *hx.Ctx, idx int) {
 			err = fmt.Errorf("panic: %s", p)
 		}
 		checkExport(c, kase, s.name, s.cfg, chunks, out, err, true)
+		c.Op("c14.short "+s.name+" "+wireChunks(chunks), okHex(out, err))
 	}
 	// every format under drawn configurations
 	for _, f := range allFormats {
@@ -1046,6 +1065,8 @@ func RunCase(c *hx.Ctx, idx int) {
 	checkFilters(c, kase, r, chunks)
 	checkStdlibCSV(c, kase, r)
 	checkHelpers(c, r, chunks)
+	checkAPI(c, kase, r, chunks)
+	checkJSONText(c, kase, r.Fork(0xA4), chunks, caseTexts, caseLines)
 
 	adversarial := false
 	for _, ch := range chunks {
@@ -1061,7 +1082,8 @@ func RunCase(c *hx.Ctx, idx int) {
 }
 
 func Run(c *hx.Ctx) {
-	c.Rep.Rule = "collections of 0–20 chunks whose ids, texts, titles, section names/paths, parent/child ids are concatenations of adversarial fragments (comma, tab, quotes, CR, LF, CRLF, NUL, control bytes, emoji, CJK, NBSP/NEL, JSON look-alikes, backslash-dot), valid UTF-8; every collection is exported by ToJSON/ToJSONL/ToCSV/ToTSV, by Exporter.ExportToString under 2 drawn configurations per format (library constructors + toggles of IncludeMetadata, MetadataFields nil/empty/subsets/unknown names, IncludeText, IncludeEmbeddings, FlattenMetadata, IncludeHeader, PrettyPrint, column names, delimiter), by BatchExporter (size 1..n+2), StreamExporter, Pinecone/Chroma/Weaviate with dyadic embeddings, and filtered by 4 drawn filters/chains + an arbitrary predicate; plus, per case, a second collection whose texts are words spelled with arbitrary members of each letter's Unicode case class (components of SimpleFold/ToLower/ToUpper/ToTitle: k/K/KELVIN SIGN, i/I/U+0130/U+0131, s/S/long s, a-ring/ANGSTROM, Greek, digraphs) searched with 4 keywords that are pieces of those texts re-spelled in another casing, incl. wholly on the ASCII / non-ASCII side of each class, alone and chained with another filter; non-trivial = at least one chunk; distinct by canonical collection"
+	c.Rep.Rule = "collections of 0–20 chunks whose ids, texts, titles, section names/paths, parent/child ids are concatenations of adversarial fragments (comma, tab, quotes, CR, LF, CRLF, NUL, control bytes, emoji, CJK, NBSP/NEL, JSON look-alikes, backslash-dot), valid UTF-8; every collection is exported by ToJSON/ToJSONL/ToCSV/ToTSV, by Exporter.ExportToString under 2 drawn configurations per format (library constructors + toggles of IncludeMetadata, MetadataFields nil/empty/subsets/unknown names, IncludeText, IncludeEmbeddings, FlattenMetadata, IncludeHeader, PrettyPrint, column names, delimiter), by BatchExporter (size 1..n+2), StreamExporter, Pinecone/Chroma/Weaviate with dyadic embeddings, and filtered by 4 drawn filters/chains + an arbitrary predicate; plus, per case, a second collection whose texts are words spelled with arbitrary members of each letter's Unicode case class (components of SimpleFold/ToLower/ToUpper/ToTitle: k/K/KELVIN SIGN, i/I/U+0130/U+0131, s/S/long s, a-ring/ANGSTROM, Greek, digraphs) searched with 4 keywords that are pieces of those texts re-spelled in another casing, incl. wholly on the ASCII / non-ASCII side of each class, alone and chained with another filter; per case also: BatchExporter runs under a drawn, sometimes unsupported configuration (unknown Format value, delimiter encoding/csv rejects) with a callback failing at a drawn invocation; a StreamExporter driven by 0-8 drawn WriteChunk/Close calls (repeated chunks, arbitrary index arguments, Close anywhere); Pinecone/Chroma/Weaviate/PrepareForVectorDB with nil/empty/short/long embedding lists (nil and empty vectors inside); the text of every JSON/JSONL export, stream and vector-database export compared byte for byte with the model; the model's JSON reader against encoding/json on those texts, on copies damaged by 1-3 byte edits from a JSON-significant alphabet and on hand-made texts (number grammar, literals, escapes, duplicate keys, trailing data); JSON string literals of arbitrary byte strings (ill-formed UTF-8, overlongs, surrogates, U+2028/9, controls, <>&); formatValue on nested maps; non-trivial = at least one chunk; distinct by canonical collection"
+	checkConfigs(c)
 	n := c.N(1200, 12000)
 	for i := 0; i < n; i++ {
 		RunCase(c, i)
